@@ -1189,6 +1189,18 @@ struct Driver {
       for (auto& o : w.sc.DeclaredOuts(s.id)) if (used.count(o) || w.sc.FindDyndep(o)) leaf = false;
       if (leaf) leaves.push_back(s.id);
     }
+    // a third kind of edit: `deps = gcc` is dropped from a statement, its depfile binding stays
+    // (the command line is the same; what the deps log holds for it must not be used any more)
+    std::vector<int> with_deps;
+    for (const Stmt& q : w.sc.stmts) if (q.alive && q.deps_kind == 2 && !q.regen) with_deps.push_back(q.id);
+    if (!with_deps.empty() && H(3) == 0) {
+      Stmt& q = w.sc.stmts[with_deps[H((uint32_t)with_deps.size())]];
+      q.deps_kind = 1;
+      Note("manifest edit: `deps = gcc` dropped from statement " + std::to_string(q.id) + " (depfile kept)");
+      w.WriteManifest();
+      rr.stats.n["manifest_edit_deps_dropped"]++;
+      return;
+    }
     if (leaves.empty()) return;
     Stmt& s = w.sc.stmts[leaves[H((uint32_t)leaves.size())]];
     if (H(2) == 0) {
